@@ -179,11 +179,26 @@ class Report:
         self.failures.append(Failure(self.prop, source, signature, what, replay, found_input))
 
 
+def unjson(x: Any) -> Any:
+    """inverse of `jsonable` for the non-finite floats"""
+    if isinstance(x, dict):
+        return {k: unjson(v) for k, v in x.items()}
+    if isinstance(x, list):
+        return [unjson(v) for v in x]
+    if x == "inf":
+        return float("inf")
+    if x == "-inf":
+        return float("-inf")
+    if x == "nan":
+        return float("nan")
+    return x
+
+
 def load_findings() -> list[dict]:
     p = VERIF / "known_findings.json"
     if not p.exists():
         return []
-    return json.loads(p.read_text()).get("findings", [])
+    return unjson(json.loads(p.read_text()).get("findings", []))
 
 
 def jsonable(x: Any) -> Any:
